@@ -6,6 +6,8 @@ package main
 import (
 	"go/token"
 	"go/types"
+	"sort"
+	"strings"
 
 	"golang.org/x/tools/go/ssa"
 )
@@ -1005,5 +1007,482 @@ func rulePropMarker(w *World, r *Report) {
 		r.exempt("PROP-MARKER", key, w.Pos(fn.Pos()), "idiom not recognised (neither a byte-0 test nor a search anywhere / no recognised strip in parseProp): not decided by this rule")
 	default:
 		r.ok("PROP-MARKER", key, w.Pos(fn.Pos()), "marker tested at byte 0 and stripped from byte 0")
+	}
+}
+
+// ANC-RESTORE (C09): every callback handed to the ancestor walk re-points the request context at the
+// location it visits.  Together with ANC-SELF-LAST this is what leaves the context pointing at the
+// location that received the request once an inherited search is over: the walk itself clobbers the
+// context (LocationProvider.GetLocation re-points it at a parent that had to be loaded).
+func ruleAncRestore(w *World, r *Report) {
+	r.Rule("ANC-RESTORE", "every function value that reaches the ancestor walk's callback slot calls, on every path to a success return, a method on the visited location that re-points the request context at it (Context.SetLoc(receiver), directly or through methods on the same receiver): looking up a parent re-points the context at the parent, so the visit of the location itself (last, see ANC-SELF-LAST) is what puts the context back before the rule's actions run", 2)
+	setLoc := w.Method("core", "Context", "SetLoc")
+	locT := w.Named("core", "Location")
+	isLocPtr := func(t types.Type) bool {
+		p, ok := t.(*types.Pointer)
+		return ok && types.Identical(p.Elem(), locT)
+	}
+	memo := map[*ssa.Function]int{} // 1 = ensures, 2 = does not, 3 = in progress
+	var ensures func(m *ssa.Function, depth int) (bool, ssa.Instruction)
+	ensures = func(m *ssa.Function, depth int) (bool, ssa.Instruction) {
+		if m == nil || len(m.Blocks) == 0 || len(m.Params) == 0 || !isLocPtr(m.Params[0].Type()) || depth > 6 {
+			return false, nil
+		}
+		switch memo[m] {
+		case 1:
+			return true, nil
+		case 2, 3:
+			return false, nil
+		}
+		memo[m] = 3
+		recv := ssa.Value(m.Params[0])
+		barrier := func(in ssa.Instruction) bool {
+			c := callOf(in)
+			if c == nil {
+				return false
+			}
+			if _, isDefer := in.(*ssa.Defer); isDefer {
+				return false
+			}
+			f := c.StaticCallee()
+			if f == nil {
+				return false
+			}
+			if f == setLoc {
+				return len(c.Args) == 2 && valueIs(c.Args[1], recv)
+			}
+			if len(c.Args) > 0 && valueIs(c.Args[0], recv) && f != m {
+				ok, _ := ensures(f, depth+1)
+				return ok
+			}
+			return false
+		}
+		h, _ := reach(m, nil, func(in ssa.Instruction) bool { return isSuccessReturn(in, nil) }, barrier, nil)
+		if h == nil {
+			memo[m] = 1
+			return true, nil
+		}
+		memo[m] = 2
+		return false, h
+	}
+	// the callback slot: the dynamic call on a func-typed parameter inside the (recursive) walk
+	var walk *ssa.Function
+	for _, name := range []string{"doAncestors", "DoAncestors"} {
+		if f := w.TryMethod("core", "Location", name); f != nil {
+			allInstrs(f, func(in ssa.Instruction) {
+				if c := callOf(in); c != nil && c.StaticCallee() == f {
+					walk = f
+				}
+			})
+		}
+	}
+	if walk == nil {
+		undecided("ANC-RESTORE: recursive ancestor walk not found")
+	}
+	var cbParam *ssa.Parameter
+	for _, p := range walk.Params {
+		if _, ok := p.Type().Underlying().(*types.Signature); ok {
+			cbParam = p
+		}
+	}
+	if cbParam == nil {
+		undecided("ANC-RESTORE: callback parameter not found")
+	}
+	seen := map[*ssa.Function]bool{}
+	allInstrs(walk, func(in ssa.Instruction) {
+		c := callOf(in)
+		site, ok := in.(ssa.CallInstruction)
+		if c == nil || !ok || !valueIs(c.Value, cbParam) {
+			return
+		}
+		for _, cb := range w.Callees(site) {
+			if seen[cb] || !w.IsRulio(cb) || isTestFile(w, cb) {
+				continue
+			}
+			seen[cb] = true
+			key := "callback=" + fname(cb)
+			if len(cb.Params) == 0 || !isLocPtr(cb.Params[0].Type()) {
+				r.violation("ANC-RESTORE", key, w.Pos(cb.Pos()), "callback without a location parameter")
+				continue
+			}
+			// treat the callback like a method on its parameter
+			if ok, h := ensures(cb, 0); ok {
+				r.ok("ANC-RESTORE", key, w.Pos(cb.Pos()), "re-points the context at the visited location on every success path")
+			} else {
+				r.violation("ANC-RESTORE", key, w.PosOf(h), "the callback can succeed without re-pointing the request context at the location it visits: after a parent had to be loaded the context stays on the parent, and the child's rule actions run (and write) there")
+			}
+		}
+	})
+}
+
+// CRON-RESCHED (C15): the in-memory cron re-inserts a recurring job after every tick, whatever the tick returned.
+func ruleCronResched(w *World, r *Report) {
+	r.Rule("CRON-RESCHED", "Cron.run puts a recurring job back on the timeline after every tick: with the edge `job.Once() is true` deleted, every path from the tick to a return passes Cron.schedule(job) (a tick that fails — location disabled for a moment, an action error — must not end the schedule while the rule exists); and on the one-shot edge the job is never scheduled again", 1)
+	run := w.Method("cron", "Cron", "run")
+	sched := w.Method("cron", "Cron", "schedule")
+	once := w.Method("cron", "CronJob", "Once")
+	var job *ssa.Parameter
+	for _, p := range run.Params {
+		if pt, ok := p.Type().(*types.Pointer); ok && isNamed(pt.Elem(), modPath+"/cron", "CronJob") {
+			job = p
+		}
+	}
+	key := "fn=" + fname(run)
+	if job == nil {
+		undecided("CRON-RESCHED: job parameter of Cron.run not found")
+	}
+	isOnce := func(v ssa.Value) bool {
+		c, ok := v.(*ssa.Call)
+		return ok && c.Common().StaticCallee() == once
+	}
+	// edges of Ifs that test the Once() result: succ index taken when once is true
+	onceEdge := func(b *ssa.BasicBlock) (int, bool) {
+		if len(b.Instrs) == 0 {
+			return 0, false
+		}
+		ifi, ok := b.Instrs[len(b.Instrs)-1].(*ssa.If)
+		if !ok {
+			return 0, false
+		}
+		ct, ok := decodeIf(ifi)
+		if !ok || !isOnce(resolveSpill(ct.V)) {
+			return 0, false
+		}
+		if ct.TrueWhen == "true" {
+			return 0, true
+		}
+		if ct.TrueWhen == "false" {
+			return 1, true
+		}
+		return 0, false
+	}
+	tested := false
+	for _, b := range run.Blocks {
+		if _, ok := onceEdge(b); ok {
+			tested = true
+		}
+	}
+	if !tested {
+		r.exempt("CRON-RESCHED", key, w.Pos(run.Pos()), "Cron.run does not branch on CronJob.Once() directly: idiom not recognised, not decided by this rule")
+		return
+	}
+	recurring := func(b *ssa.BasicBlock, si int) bool { // delete the once edges
+		k, ok := onceEdge(b)
+		return !ok || si != k
+	}
+	oneshot := func(b *ssa.BasicBlock, si int) bool { // delete the recurring edges
+		k, ok := onceEdge(b)
+		return !ok || si == k
+	}
+	isSched := func(in ssa.Instruction) bool {
+		c := callOf(in)
+		if c == nil || c.StaticCallee() != sched {
+			return false
+		}
+		for _, a := range c.Args {
+			if valueIs(a, job) {
+				return true
+			}
+		}
+		return false
+	}
+	isRet := func(in ssa.Instruction) bool { _, ok := in.(*ssa.Return); return ok }
+	// the tick: the dynamic call of the job's function
+	var tick ssa.Instruction
+	allInstrs(run, func(in ssa.Instruction) {
+		if c := callOf(in); c != nil && !c.IsInvoke() && c.StaticCallee() == nil {
+			if _, isB := c.Value.(*ssa.Builtin); !isB && tick == nil {
+				tick = in
+			}
+		}
+	})
+	if tick == nil {
+		r.violation("CRON-RESCHED", key, w.Pos(run.Pos()), "Cron.run no longer runs the job's function")
+		return
+	}
+	if h, path := reach(run, tick, isRet, isSched, recurring); h != nil {
+		r.violation("CRON-RESCHED", key, w.PosOf(h), "a recurring job can finish a tick without being scheduled again: the rule still exists but never runs again", blockPathString(w, path)...)
+		return
+	}
+	if h, _ := reach(run, nil, isSched, nil, oneshot); h != nil {
+		r.violation("CRON-RESCHED", key, w.PosOf(h), "a one-shot job is put back on the timeline")
+		return
+	}
+	r.ok("CRON-RESCHED", key, w.Pos(run.Pos()), "recurring jobs are rescheduled on every path, one-shot jobs never")
+}
+
+// PARTITION-AGREE (C16): crolt chooses the bucket pair by the account; the key looked up in it starts with the
+// same account.
+func rulePartitionAgree(w *World, r *Report) {
+	r.Rule("PARTITION-AGREE", "crolt: in every function that builds a job key with genAId(account, id) and chooses buckets with Cron.Partition(x), x is that same account value (or the Account field of the job at hand): Add/update file a job under Partition(job.Account), so a lookup or removal that partitions by anything else searches the wrong buckets, reports success and leaves the job to fire", 3)
+	part := w.Method("crolt", "Cron", "Partition")
+	gen := w.Func("crolt", "genAId")
+	for _, fn := range w.Funcs {
+		if w.RelPkg(fn) != "crolt" || isTestFile(w, fn) || fn.Synthetic != "" {
+			continue
+		}
+		var accounts []ssa.Value
+		allInstrs(fn, func(in ssa.Instruction) {
+			if c := callOf(in); c != nil && c.StaticCallee() == gen && len(c.Args) == 2 {
+				accounts = append(accounts, c.Args[0])
+			}
+		})
+		allInstrs(fn, func(in ssa.Instruction) {
+			c := callOf(in)
+			if c == nil || c.StaticCallee() != part || len(c.Args) != 2 {
+				return
+			}
+			x := c.Args[1]
+			key := "fn=" + fname(fn)
+			if n, f, _, ok := loadedField(x); ok && typeKey(n) == "crolt.Job" && f == "Account" {
+				r.ok("PARTITION-AGREE", key, w.PosOf(in), "partitioned by the job's Account field")
+				return
+			}
+			if len(accounts) == 0 {
+				var p *ssa.Parameter
+				for _, q := range fn.Params {
+					if valueIs(x, q) {
+						p = q
+					}
+				}
+				if p != nil {
+					r.ok("PARTITION-AGREE", key, w.PosOf(in), "partitioned by parameter "+p.Name()+" (no job key is built here)")
+				} else {
+					r.exempt("PARTITION-AGREE", key, w.PosOf(in), "no job key is built in this function and the partition argument is not a parameter: not decided")
+				}
+				return
+			}
+			for _, a := range accounts {
+				if sameValue(a, x) {
+					r.ok("PARTITION-AGREE", key, w.PosOf(in), "partitioned by the account that the job key is built from")
+					return
+				}
+			}
+			r.violation("PARTITION-AGREE", key, w.PosOf(in), "the buckets are chosen by a value other than the account the job key is built from: the job is looked for in the wrong partition")
+		})
+	}
+}
+
+// RELEASE-LAST (C17): a System operation does not use the location it opened after it has told the cache that
+// it is done with it.
+func ruleReleaseLast(w *World, r *Report) {
+	r.Rule("RELEASE-LAST", "typestate of the open/release bracket in sys.System: after a (non-deferred) call of releaseLocation no use of the location obtained from findLocation is reachable — the release clears the cache entry's in-use mark and may evict the instance, so work done afterwards is done on an instance that later requests no longer share (an acknowledged write can be missed)", 20)
+	find := w.Method("sys", "System", "findLocation")
+	rel := w.Method("sys", "System", "releaseLocation")
+	for _, fn := range w.Funcs {
+		if w.RelPkg(fn) != "sys" || isTestFile(w, fn) || fn.Synthetic != "" || fn == find || fn == rel {
+			continue
+		}
+		var opens []*ssa.Call
+		allInstrs(fn, func(in ssa.Instruction) {
+			if c, ok := in.(*ssa.Call); ok && c.Common().StaticCallee() == find {
+				opens = append(opens, c)
+			}
+		})
+		if len(opens) == 0 {
+			continue
+		}
+		isOpen := func(v ssa.Value) bool {
+			c, ok := v.(*ssa.Call)
+			return ok && c.Common().StaticCallee() == find
+		}
+		key := "fn=" + fname(fn)
+		var plain []ssa.Instruction
+		deferred := 0
+		allInstrs(fn, func(in ssa.Instruction) {
+			c := callOf(in)
+			if c == nil || c.StaticCallee() != rel {
+				return
+			}
+			if _, ok := in.(*ssa.Defer); ok {
+				deferred++
+			} else {
+				plain = append(plain, in)
+			}
+		})
+		if len(plain) == 0 {
+			if deferred > 0 {
+				r.ok("RELEASE-LAST", key, w.Pos(fn.Pos()), "released by a deferred call")
+			} else {
+				r.info("RELEASE-LAST", key, w.Pos(fn.Pos()), "opens a location and never releases it (the instance stays marked in use until another request releases it; never evicting is the safe direction)")
+			}
+			continue
+		}
+		usesLoc := func(in ssa.Instruction) bool {
+			c := callOf(in)
+			if c == nil || c.StaticCallee() == rel {
+				return false
+			}
+			if _, ok := in.(*ssa.Defer); ok {
+				return false
+			}
+			vals := append([]ssa.Value{}, c.Args...)
+			if c.IsInvoke() {
+				vals = append(vals, c.Value)
+			}
+			for _, a := range vals {
+				if pt, ok := a.Type().(*types.Pointer); ok && isNamed(pt.Elem(), modPath+"/core", "Location") && dependsOn(a, isOpen) {
+					return true
+				}
+			}
+			return false
+		}
+		bad := false
+		for _, p := range plain {
+			if h, _ := reach(fn, p, usesLoc, nil, nil); h != nil {
+				r.violation("RELEASE-LAST", key, w.PosOf(h), "the location is used after releaseLocation told the cache the request is done with it")
+				bad = true
+				break
+			}
+		}
+		if !bad {
+			r.ok("RELEASE-LAST", key, w.PosOf(plain[0]), "no use of the location after the release")
+		}
+	}
+}
+
+// CACHE-ERR-ORIGIN (C17): what the cache returns as an error is the error of opening the location, nothing of
+// the cache's own bookkeeping.
+func ruleCacheErrOrigin(w *World, r *Report) {
+	r.Rule("CACHE-ERR-ORIGIN", "the error result of CachedLocation.Get originates only in System.OpenLocation (followed through phis, local slots and wrapping calls that take an error): an error of the cache's own bookkeeping (reading the optional cacheTTL property) must not become the request's result, because it would be returned on the request that loads the location and not on those served from the cache — the answer would depend on the TTL", 1)
+	fn := w.Method("sys", "CachedLocation", "Get")
+	open := w.Method("sys", "System", "OpenLocation")
+	idx := errorResultIndex(fn.Signature)
+	key := "fn=" + fname(fn)
+	if idx < 0 {
+		r.info("CACHE-ERR-ORIGIN", key, w.Pos(fn.Pos()), "Get returns no error")
+		return
+	}
+	origins := map[string]string{}
+	seen := map[ssa.Value]bool{}
+	var walk func(v ssa.Value, d int)
+	walk = func(v ssa.Value, d int) {
+		if v == nil || seen[v] || d > 30 {
+			return
+		}
+		seen[v] = true
+		switch x := v.(type) {
+		case *ssa.Const:
+			return
+		case *ssa.Phi:
+			for _, e := range x.Edges {
+				walk(e, d+1)
+			}
+		case *ssa.Extract:
+			walk(x.Tuple, d+1)
+		case *ssa.MakeInterface:
+			walk(x.X, d+1)
+		case *ssa.ChangeInterface:
+			walk(x.X, d+1)
+		case *ssa.UnOp:
+			if a, ok := x.X.(*ssa.Alloc); ok && x.Op == token.MUL {
+				for _, ref := range *a.Referrers() {
+					if st, ok := ref.(*ssa.Store); ok && st.Addr == a {
+						walk(st.Val, d+1)
+					}
+				}
+				return
+			}
+			origins["load "+x.String()] = w.PosOf(x)
+		case *ssa.Call:
+			f := x.Common().StaticCallee()
+			// a wrapper: some argument is itself an error
+			wrapped := false
+			for _, a := range x.Common().Args {
+				if isErrorType(a.Type()) {
+					wrapped = true
+					walk(a, d+1)
+				}
+			}
+			if wrapped {
+				return
+			}
+			name := "dynamic call"
+			if f != nil {
+				name = fname(f)
+			} else if x.Common().IsInvoke() {
+				name = x.Common().Method.FullName()
+			}
+			origins[name] = w.PosOf(x)
+		case *ssa.Parameter, *ssa.Global, *ssa.FreeVar:
+			origins[v.Name()] = w.Pos(v.Pos())
+		default:
+			origins[v.String()] = w.Pos(v.Pos())
+		}
+	}
+	allInstrs(fn, func(in ssa.Instruction) {
+		if ret, ok := in.(*ssa.Return); ok && idx < len(ret.Results) {
+			walk(ret.Results[idx], 0)
+		}
+	})
+	var bad []string
+	var where string
+	for o, p := range origins {
+		if o != fname(open) {
+			bad = append(bad, o)
+			where = p
+		}
+	}
+	sort.Strings(bad)
+	if len(bad) > 0 {
+		r.violation("CACHE-ERR-ORIGIN", key, where, "the error returned by CachedLocation.Get can also originate in "+strings.Join(bad, ", ")+": an error of the cache's own bookkeeping fails the request that happens to load the location, while requests served from the cache succeed")
+		return
+	}
+	if _, ok := origins[fname(open)]; !ok {
+		r.violation("CACHE-ERR-ORIGIN", key, w.Pos(fn.Pos()), "the error of System.OpenLocation no longer reaches the result of CachedLocation.Get")
+		return
+	}
+	r.ok("CACHE-ERR-ORIGIN", key, w.Pos(fn.Pos()), "only OpenLocation's error is returned")
+}
+
+// PENDING-COUNT (C17): the in-use mark of a shared cache entry has to count its users.
+func rulePendingCount(w *World, r *Report) {
+	r.Rule("PENDING-COUNT", "the in-use mark of a location-cache entry (CachedLocation.Pending) is shared by every request that was handed the entry's instance (premise, checked: CachedLocations.Open returns the cached instance to later callers while it is live, and more than one System operation brackets its work with findLocation/releaseLocation); therefore the value stored into the mark on release must depend on the mark's previous value (a count), otherwise the first request to finish clears the mark for all the others: their instance can be evicted while they still write to it, the next request loads a second instance without that write, and requests started after the write was acknowledged are served the second instance", 1)
+	named := w.Named("sys", "CachedLocation")
+	st := structOf(named)
+	has := false
+	for i := 0; st != nil && i < st.NumFields(); i++ {
+		if st.Field(i).Name() == "Pending" {
+			has = true
+		}
+	}
+	if !has {
+		r.exempt("PENDING-COUNT", "field=sys.CachedLocation.Pending", w.Pos(named.Obj().Pos()), "the entry has no Pending field any more: the in-use protocol changed, not decided by this rule")
+		return
+	}
+	// premise: several bracketed operations
+	rel := w.Method("sys", "System", "releaseLocation")
+	if len(w.Callers(rel)) < 2 {
+		r.exempt("PENDING-COUNT", "field=sys.CachedLocation.Pending", w.Pos(rel.Pos()), "premise fails: fewer than two operations release a location")
+		return
+	}
+	n := 0
+	for _, fn := range w.Funcs {
+		if w.RelPkg(fn) != "sys" || isTestFile(w, fn) {
+			continue
+		}
+		allInstrs(fn, func(in ssa.Instruction) {
+			sto, ok := storesToField(in, "sys.CachedLocation", "Pending")
+			if !ok {
+				return
+			}
+			if isFreshAt(sto.Addr.(*ssa.FieldAddr).X, in) {
+				return // initialisation of a new entry
+			}
+			n++
+			key := "field=sys.CachedLocation.Pending fn=" + fname(fn)
+			prev := func(v ssa.Value) bool {
+				nm, f, _, ok := loadedField(v)
+				return ok && typeKey(nm) == "sys.CachedLocation" && f == "Pending"
+			}
+			if dependsOn(sto.Val, prev) {
+				r.ok("PENDING-COUNT", key, w.PosOf(in), "the new mark is computed from the previous one")
+			} else {
+				r.violation("PENDING-COUNT", key, w.PosOf(in), "the in-use mark is overwritten with a value that does not depend on its previous value: one request's release clears the mark of every other request that still uses the instance")
+			}
+		})
+	}
+	if n == 0 {
+		r.exempt("PENDING-COUNT", "field=sys.CachedLocation.Pending", w.Pos(named.Obj().Pos()), "Pending is never written after construction: not decided by this rule")
 	}
 }
